@@ -69,7 +69,11 @@ func c05Run(w *verifrt.World, tier Tier) *RunResult {
 	res := &RunResult{}
 	t := w.Work
 	cfg := c05Config(t)
-	text := cfg.Text() + fmt.Sprintf("SecRule %s \"@unconditionalMatch\" \"id:9991,phase:5,pass,nolog\"\n", c05DumpVars)
+	cfg.Lines = append(cfg.Lines, "SecDataset ds1 `\nevil\nfoo\n`")
+	// rules whose per-transaction state (target removals on a rule with
+	// configured exclusions, rule removal by tag, captures) a predecessor can set
+	// by hitting a URI token while the probe does not
+	text := cfg.Text() + strings.Join(c06Special(t), "\n") + "\n" + fmt.Sprintf("SecRule %s \"@unconditionalMatch\" \"id:9991,phase:5,pass,nolog\"\n", c05DumpVars)
 	ro := &reqOpts{Body: true, Response: true, Uploads: true, JSON: true, MaxArgs: 5, Abandon: true}
 	np := 1 + t.Draw(3)
 	sc := &c05Scenario{Config: text, FaultAt: -1}
@@ -176,11 +180,10 @@ func c05Run(w *verifrt.World, tier Tier) *RunResult {
 		hb.Close()
 	}
 	w.PoolPolicy = verifrt.PoolLIFO
-	var got *Outcome
-	byGot := byRun(h, func() { got = runTx(h, sc.Probe) })
-	if got == nil {
-		got = &Outcome{Panic: "bystander failed before the probe could run: " + byGot}
-	}
+	// the probe itself runs first, on the object the last predecessor used;
+	// the bystander pair follows on whatever the pool holds then
+	got := runTx(h, sc.Probe)
+	byGot := byRun(h, func() { runTx(h, sc.Probe) })
 	if byRef != byGot {
 		res.fail("C05", "live-transactions-share-state", "bystander", "a transaction kept alive while the probe ran behaves differently from the same transaction on a fresh WAF:\nfresh:   %s\nhistory: %s\nconfiguration:\n%s\npredecessors: %s", clip(byRef, 1500), clip(byGot, 1500), text, jsonOf(sc.Predecessors))
 	}
